@@ -118,7 +118,9 @@ theorem findRootsDisk_mono {fs : FS} {lg : Bytes} {lgs : List Bytes} {st st' : R
       intro hg
       unfold gorootProbe at hr
       have : (st.goroot == []) = false := by simpa using hg
-      simp [this] at hr
+      simp only [this, Bool.false_eq_true, if_false] at hr
+      rw [hasSuffix_nil_false srcDir_ne] at hr
+      exact absurd hr (by simp)
   · split at h
     · cases h
     · cases h
@@ -344,7 +346,7 @@ theorem LayoutHyp.rooted (h : LayoutHyp fs lg L f pR pRel) :
 theorem LayoutHyp.findGopath (h : LayoutHyp fs lg L f pR pRel) :
     findGopath fs (splitPath f) [L] = .ok (some (pathJoin pR, L)) := by
   simp only [PP.findGopath, h.rooted]
-  have hne : (pathJoin pR ++ srcDir != []) = true := by simp [srcDir]
+  have hne : hasSuffix (pathJoin pR ++ srcDir) srcDir = true := hasSuffix_append _ _
   have hlen : ¬ (pathJoin pR ++ srcDir).length < srcDir.length := by simp
   simp only [hne, if_true, hlen, if_false]
   congr 3
@@ -383,7 +385,7 @@ theorem LayoutHyp.step (h : LayoutHyp fs lg L f pR pRel) {st1 st2 : RootsState}
           · rfl
         unfold findRootsDisk at hs
         simp only [hprobe, h.findGopath] at hs
-        simp only [bne_self_eq_false, Bool.false_eq_true, if_false] at hs
+        simp only [hasSuffix_nil_false srcDir_ne, Bool.false_eq_true, if_false] at hs
         cases hs
         exact AMap.keys_insert_self _ _ _
 
